@@ -1,11 +1,12 @@
 #!/bin/bash
 # Build the framework offline from files on disk: regenerate the translated Coq files
 # from /repo's current source and compile the whole Coq development (full .vo build).
-set -e
 cd "$(dirname "$0")"
-export PYTHONPATH=/repo/src:/verif PYTHONHASHSEED=0 PYTHONDONTWRITEBYTECODE=1
+export VERIF_REPO="${VERIF_REPO:-/repo}"
+export PYTHONPATH="$VERIF_REPO/src:/verif" PYTHONHASHSEED=0 PYTHONDONTWRITEBYTECODE=1
 mkdir -p _build evidence replays
-/venv/bin/python translate/gen.py || echo "setup: translator reported errors (checks will report them)"
+/venv/bin/python translate/gen.py || echo "setup: translator reported errors (the checks will report them)"
+/venv/bin/python -c "from harness import common; common.refresh_coqproject()"
 cd coq
-coq_makefile -f _CoqProject -o Makefile >/dev/null
-timeout 3000 make -j16 2>&1 | tail -5 || echo "setup: coq build reported errors (checks will report them)"
+timeout 3000 make -j16 2>&1 | tail -5
+exit 0
